@@ -658,7 +658,10 @@ def neutral_passes(ctx):
     if key not in _neutral_cache:
         try:
             r = run_bin(PKG, ["neutral"], [{"dialect": ctx["d"], "sql": ctx["sql"], "unescape": ctx["unescape"], "trailing": ctx.get("trailing", False)}], pkg=PKG)[0]
-            _neutral_cache[key] = r.get("status") == "neutralised" and r.get("roundtrip") == "ok" and r.get("content") in ("ok", "exempt-copy-payload")
+            # the neutral text may still differ in optional keywords (AS ..): that is not what a failure that lost or invented
+            # content TOKENS is about, so such a failure is still caused by the literal
+            kw_only = r.get("content") == "diff" and r.get("content_tokens_differ") is False and bool(ctx.get("lost") or ctx.get("invented"))
+            _neutral_cache[key] = r.get("status") == "neutralised" and r.get("roundtrip") == "ok" and (r.get("content") in ("ok", "exempt-copy-payload") or kw_only)
         except Exception:
             _neutral_cache[key] = False
     return _neutral_cache[key]
